@@ -211,6 +211,7 @@ pub fn drive(log: &mut Log) {
     }
 
     gc_rep_runs(log, &mut case);
+    gc_segs_runs(log, &mut case);
 
     // GC content
     let ngc = log.opts.n(40, 400);
@@ -295,6 +296,54 @@ fn gc_rep_runs(log: &mut Log, case: &mut u64) {
     }
 }
 
+/// two streamed segments: unit_a repeated ma*chunk times, then unit_b repeated mb*chunk times; only the
+/// parameters are logged. With chunk = 3 * 2^20 and ma + mb >= 1366 the call counts more than 2^32 symbols.
+fn gc_segs_runs(log: &mut Log, case: &mut u64) {
+    const CHUNK: u64 = 3 << 20;
+    // (unit_a, ma, unit_b, mb)
+    let big: (&[u8], u64, &[u8], u64) = (b"G", 2, b"A", 1365); // 1367 chunks = 4 300 210 176 > 2^32 symbols
+    let mut cases: Vec<(&[u8], u64, &[u8], u64)> = vec![(b"G", 1, b"A", 4), (b"GATC", 2, b"AT", 3), (b"c", 0, b"gA", 5)];
+    // (about 8 s of one core in the release build; VERIF_GC_HUGE=0 leaves it out)
+    if std::env::var("VERIF_GC_HUGE").map(|v| v != "0").unwrap_or(true) {
+        cases.push(big);
+    }
+    for (ua, ma, ub, mb) in cases.iter() {
+        *case += 1;
+        if !log.mine(*case) {
+            continue;
+        }
+        if !log.begin("gs", json!({"kind": "gc"})) {
+            continue;
+        }
+        let na = (ma * CHUNK) as usize * ua.len();
+        let nb = (mb * CHUNK) as usize * ub.len();
+        let args = json!({"chunk": CHUNK, "segs": [{"unit": bytes(ua), "m": ma}, {"unit": bytes(ub), "m": mb}]});
+        log.call("gc_segs", args.clone(), || {
+            let x = if ua.len() == 1 && ub.len() == 1 {
+                // single symbols: the cheapest lazy iterator (billions of items)
+                gc::gc_content(std::iter::repeat(ua[0]).take(na).chain(std::iter::repeat(ub[0]).take(nb)))
+            } else {
+                gc::gc_content(ua.iter().cycle().take(na).chain(ub.iter().cycle().take(nb)))
+            };
+            let (g, nan) = fixed(x);
+            json!({"g": g, "nan": nan})
+        });
+        if (na + nb) as u64 > u32::MAX as u64 {
+            log.oblige("more_than_2p32_symbols_in_one_gc_call");
+        } else {
+            log.call("gc3_segs", args, || {
+                let it = ua.iter().cycle().take(na).chain(ub.iter().cycle().take(nb));
+                let (g, nan) = fixed(gc::gc3_content(it));
+                json!({"g": g, "nan": nan})
+            });
+        }
+    }
+}
+
 fn main() {
+    // one gc call streams more than 2^32 symbols: give the per-call watchdog room (unless set by the caller)
+    if std::env::var("VERIF_CALL_TIMEOUT_MS").is_err() {
+        std::env::set_var("VERIF_CALL_TIMEOUT_MS", "180000");
+    }
     bio_verif_harness::run(drive)
 }
